@@ -65,6 +65,7 @@ def run(rep: core.Report):
         raise AnalysisError(f"R04a: only {typed_total} contractions could be typed; the seeds no longer match the code")
     _r04b(rep)
     _r04c(rep)
+    _r04d(rep)
 
 
 def _r04b(rep):
@@ -145,6 +146,81 @@ def _r04b(rep):
     rep.instance("R04b", CELLS, "_trim_cell", "trimmed cell reports the mapping table used for the atom-count check", "mapping_table" in t, "mapping table vanished", line=tf.lineno, nontrivial=False)
 
 
+def _r04d(rep):
+    """Integrality typing of the atom-count test of TrimmedCell._run.  det(relative_axes) is the volume ratio 1/k
+    of the trimmed cell (k the integer number of lattice points per trimmed cell, assumption printed);
+    INT: integer-valued, IDX: the integer k, DET: 1/k, FRAC: possibly non-integer.  Rounding a FRAC value
+    inside the acceptance test makes nearly-tiling cells pass."""
+    rep.rule("R04d", "rejection in TrimmedCell._run: the atom-count test that admits a trimmed cell never rounds a possibly fractional product (rounding is applied to (number of trimmed atoms) x (integer index), which is an integer)", 2)
+    fn = core.find_def(CELLS, "TrimmedCell._run")
+    env = {}
+    lossy = []
+
+    def ty(e):
+        if isinstance(e, ast.Constant) and isinstance(e.value, (int, float)):
+            return "INT" if float(e.value).is_integer() else "FRAC"
+        if isinstance(e, ast.Name):
+            return env.get(e.id)
+        if isinstance(e, ast.Call):
+            f = core.src(e.func)
+            if f == "len":
+                return "INT"
+            if f in ("np.linalg.det", "determinant") and e.args and "relative_axes" in core.src(e.args[0]):
+                return "DET"
+            if f in ("abs", "np.abs", "float") and e.args:
+                return ty(e.args[0])
+            if f in ("np.rint", "round", "np.round", "int", "np.floor", "np.ceil") and e.args:
+                t = ty(e.args[0])
+                if t == "FRAC" or t == "DET":
+                    if f != "int" or not (isinstance(e.args[0], ast.Call) and core.src(e.args[0].func) in ("np.rint", "round", "np.round")):
+                        lossy.append(e)
+                    return "INT"
+                return "INT" if t in ("INT", "IDX") else None
+            return None
+        if isinstance(e, ast.BinOp):
+            a, b = ty(e.left), ty(e.right)
+            if a is None or b is None:
+                return None
+            if isinstance(e.op, ast.Mult):
+                pair = {a, b}
+                if pair <= {"INT", "IDX"}:
+                    return "INT"
+                if pair == {"IDX", "DET"}:
+                    return "INT"
+                return "FRAC"
+            if isinstance(e.op, (ast.Div,)):
+                if a == "INT" and isinstance(e.left, ast.Constant) and float(e.left.value) == 1.0 and b == "DET":
+                    return "IDX"
+                if a == "INT" and b == "DET":
+                    return "INT"
+                return "FRAC"
+            if isinstance(e.op, (ast.Add, ast.Sub)):
+                return "INT" if {a, b} <= {"INT", "IDX"} else "FRAC"
+            return None
+        return None
+
+    for st in fn.body:
+        if isinstance(st, ast.Assign) and isinstance(st.targets[0], ast.Name):
+            t = ty(st.value)
+            if t:
+                env[st.targets[0].id] = t
+    gate = [n for n in fn.body if isinstance(n, ast.If) and any(isinstance(x, ast.Raise) for arm in (n.body, n.orelse) for y in arm for x in ast.walk(y)) and any(isinstance(x, ast.Call) and core.src(x.func) == "super().__init__" for arm in (n.body, n.orelse) for y in arm for x in ast.walk(y))]
+    if len(gate) != 1:
+        raise AnalysisError("R04d: the accept/raise gate of TrimmedCell._run vanished")
+    n0 = len(lossy)
+    for c in [x for x in ast.walk(gate[0].test) if isinstance(x, ast.Compare)]:
+        ty(c.left)
+        for k in c.comparators:
+            ty(k)
+    names = {x.id for x in ast.walk(gate[0].test) if isinstance(x, ast.Name)}
+    bad = [e for e in lossy if any(e in set(ast.walk(gate[0].test)) for _ in [0])] + [e for e in lossy[:n0] if any(isinstance(st, ast.Assign) and isinstance(st.targets[0], ast.Name) and st.targets[0].id in names and e in set(ast.walk(st.value)) for st in fn.body)]
+    counts = {core.src(x) for x in ast.walk(gate[0].test) if isinstance(x, ast.Call) and core.src(x.func) == "len"} | {core.src(x) for st in fn.body if isinstance(st, ast.Assign) and isinstance(st.targets[0], ast.Name) and st.targets[0].id in names for x in ast.walk(st.value) if isinstance(x, ast.Call) and core.src(x.func) == "len"}
+    rep.instance("R04d", CELLS, "TrimmedCell._run", f"gate '{core.norm(core.src(gate[0].test), 70)}' compares {sorted(counts)}", len(counts) >= 2, "the gate no longer compares the number of atoms of the input cell with the number of trimmed atoms", line=gate[0].lineno)
+    rep.instance("R04d", CELLS, "TrimmedCell._run", "no rounding of a possibly fractional product in the gate", not bad,
+                 (f"'{core.norm(core.src(bad[0]), 60)}' rounds (atoms of the input cell) x det(relative_axes), which is not an integer when the cell cannot be tiled: a cell with an unpaired atom (3 atoms under I-centring: 3 x 1/2 = 1.5 -> 2) is admitted and a primitive cell with len(cell) != N len(primitive) is built" if bad else ""), line=(bad[0].lineno if bad else gate[0].lineno))
+    rep.assume("R04d: 1/det(relative_axes) is an integer (the number of lattice points of the input cell per trimmed cell)")
+
+
 def _r04c(rep):
     fn = core.find_def(CELLS, "Supercell._get_simple_supercell")
     from engine import symalg
@@ -181,5 +257,7 @@ def selftest():
     n("uniqueness as if-raise", CELLS, "            assert len(indices) == 1", "            if len(indices) != 1:\n                raise RuntimeError('mapping failed')")
     b("uniqueness test dropped", CELLS, "            assert len(indices) == 1\n", "", "R04b", "_map_atomic_indices")
     b("unimodularity assertion dropped", CELLS, "            assert determinant(P_inv) == 1\n", "", "R04c", "determinant")
+    b("atom-count gate rounds on the coarse side", CELLS, "        scale = 1.0 / np.linalg.det(relative_axes)\n        if len(cell) == int(np.rint(scale * len(trimmed_symbols))):", "        num_trimmed = int(np.rint(len(cell) * np.linalg.det(relative_axes)))\n        if len(trimmed_symbols) == num_trimmed:", "R04d", "TrimmedCell._run")
+    n("atom-count gate without a temporary", CELLS, "        scale = 1.0 / np.linalg.det(relative_axes)\n        if len(cell) == int(np.rint(scale * len(trimmed_symbols))):", "        if len(cell) == int(np.rint(len(trimmed_symbols) / np.linalg.det(relative_axes))):")
     n("dot written as matmul", CELLS, "            cart_diffs = np.dot(frac_diffs, self.cell)", "            cart_diffs = frac_diffs @ self.cell")
     return V
